@@ -17,13 +17,15 @@ static int mode;                               /* 2, 3, 9, 19 (allocation-ledger
 static struct { uint8_t first_seen; } M19;
 static uint32_t base_blocks; static uint64_t base_bytes;      /* the per-interface record of a fresh responder, measured */
 
-static void ev_name(int ev, char *buf, size_t cap) { pev_name(&EV[ev], buf, cap); }
-static void cv_name(int ev, char *buf, size_t cap) { pev_name(&CV[ev], buf, cap); }
+static int SIB_EV = -1, SIB_CV = -1;           /* c09 --b 1: index of the one event that arrives on the responder's second interface */
+static void ev_name(int ev, char *buf, size_t cap) { if (ev == SIB_EV) { snprintf(buf, cap, "on the second interface: "); buf += strlen(buf); cap -= 25; } pev_name(&EV[ev], buf, cap); }
+static void cv_name(int ev, char *buf, size_t cap) { if (ev == SIB_CV) { snprintf(buf, cap, "on the second interface: "); buf += strlen(buf); cap -= 25; } pev_name(&CV[ev], buf, cap); }
 static void touch_if0(void) { if (IFX) { pev d = ev_discover(0, ST_M3, ST_M3, 0x7777, 3); vf_trace_clear(); drv_linux(&d, 0); pev p = ev_probe(0x04, 0, ST_S1, ST_S1, ST_OWN, ST_OWN); drv_linux(&p, 0); vf_trace_clear(); } }
 static void root_setup(void) { M.arb.v = ARB_NONE; touch_if0(); }
 
 static void apply(int ev) {
     const pev *e = &EV[ev];
+    if (ev == SIB_EV) { drv_linux(e, 1); return; }
     int expect = arb_step(&M.arb, e);
     drv_linux(e, IFX);
     if (mode == 2) { oracle_wellformed(IFX); oracle_solicited(e); }
@@ -92,13 +94,13 @@ static void on_new_state(int depth) {
     free(snaps[0]);
 }
 static int touches(int ev, int world) { (void)ev; (void)world; return 1; }
-static void apply3(int ev, int world) { (void)world; drv_linux(&CV[ev], 0); }
+static void apply3(int ev, int world) { (void)world; drv_linux(&CV[ev], ev == SIB_CV ? 1 : 0); }
 static const char *sig_of(int ev) {
     static char b[32]; snprintf(b, sizeof b, "op=0x%02x,tos=%u", CV[ev].opcode, CV[ev].tos); return b;
 }
 static void seed_from_prefix(const int *prefix, int n, vf_snap **snaps) {
     vf_world_reset(); root_setup();
-    for (int i = 0; i < n; i++) { vf_trace_clear(); drv_linux(&EV[prefix[i]], 0); }
+    for (int i = 0; i < n; i++) { vf_trace_clear(); drv_linux(&EV[prefix[i]], prefix[i] == SIB_EV ? 1 : 0); }
     vf_trace_clear(); drv_linux(&RESET0, 0);
     snaps[0] = vf_snapshot(NULL, 0);
     uint32_t epoch = W.env.icon_epoch;
@@ -117,9 +119,16 @@ int main(int argc, char **argv) {
     vf_world_init(A.mtu, A.wifi, (uint8_t)A.fill);
     IFX = (mode == 2 || mode == 3) && A.b == 1;
     if (IFX) { W.iface[1].flags = 0x0800; W.iface[1].iftype = 71; W.iface[1].speed = 540000; W.iface[1].wifi = !A.wifi; memcpy(W.iface[1].ssid, "second", 6); W.iface[1].ssid_len = 6; }
+    if ((mode == 2 || mode == 3) && A.a == 2) {      /* platform with a machine name longer than the Hello property may carry */
+        static const char longname[] = "a-rather-long-machine-name-of-fifty-one-characters.";
+        memcpy(W.host.hostname, longname, sizeof longname - 1); W.host.hostname_len = sizeof longname - 1;
+    }
     int small = (mode == 9 && A.a == 1);
     NEV = sigma_build(EV, 1024, mode == 3 ? SIGMA_DISC : small ? SIGMA_SMALL : SIGMA_P);
     NCV = sigma_build(CV, 1024, small ? SIGMA_SMALL : SIGMA_P);
+    if (mode == 9 && A.b == 1) {      /* a responder with two interfaces: a frame that changes nothing (a neighbour's Hello) may arrive on the other one at any point */
+        SIB_EV = NEV; EV[NEV++] = ev_hello(0, ST_PEER, 0x3412); SIB_CV = NCV; CV[NCV++] = ev_hello(0, ST_PEER, 0x3412);
+    }
     c3.nev = NCV;
     e1_cfg cfg = { .nev = NEV, .ev_name = ev_name, .apply = apply, .root_setup = root_setup, .model = &M, .model_size = sizeof M,
                    .deadline_s = A.deadline };
@@ -141,7 +150,7 @@ int main(int argc, char **argv) {
         W.fill = (uint8_t)~A.fill;      /* 0xA5 -> 0x5A */
         cfg.record_outhash = 0; cfg.compare_outhash = h1; cfg.compare_n = n1;
         e1_run(&cfg, &st2);
-        if (st2.states != states1 || st2.transitions != st.transitions)
+        if (st.fixpoint && st2.fixpoint && (st2.states != states1 || st2.transitions != st.transitions))
             vf_violation("output-depends-on-uninitialised-memory:graph", "state graph differs between fill patterns: %llu/%llu states, %llu/%llu transitions", (unsigned long long)states1, (unsigned long long)st2.states, (unsigned long long)st.transitions, (unsigned long long)st2.transitions);
         vf_extra("fill_patterns", "0x%02x and 0x%02x: %llu transitions compared byte-for-byte (via 64-bit hashes of each transition's port-call log)", A.fill, (uint8_t)~A.fill, (unsigned long long)n1);
         st.transitions += st2.transitions;
